@@ -230,7 +230,7 @@ func threadCPU() time.Duration {
 }
 
 func checkC08(c *Ctx) {
-	c.Rule = "hostile byte strings as Spec file content (.json and .yaml): structure-aware mutations of valid documents (any value -> null / wrong type / empty / one letter / 100 KB string / 12000-deep nesting / 20000 elements / numeric extremes), YAML features (recursive and expanding aliases, merge keys, tags, multi-document, BOM, tabs, directives, complex and non-string keys), byte-level mutations (bit flip, delete, duplicate, splice, truncate, insert, replace) and random bytes, through ParseSpec, ReadSpec, Cache.Refresh+GetErrors, schema ValidateData/ValidateReader/Validate, and InjectDevices of every loadable mutated Spec into G-OCI specs; G-STR strings through cdi.ParseAnnotations/AnnotationKey/AnnotationValue/UpdateAnnotations and parser.*; plus a child process with an auto-refresh cache into whose directory hostile files are dropped: after each, a known-good file must get listed (the watcher goroutine lives); oracle: no panic, no fatal error/exit of the child, no call above 20 s CPU; distinct_nontrivial = distinct inputs (by hash) that got past the parser (reached validation or loaded)"
+	c.Rule = "hostile byte strings as Spec file content (.json and .yaml; now and then behind a symbolic link, as a dangling link or as a file that vanishes at once): structure-aware mutations of valid documents (any value -> null / wrong type / empty / one letter / 100 KB string / 12000-deep nesting / 20000 elements / numeric extremes), YAML features (recursive and expanding aliases, merge keys, tags, multi-document, BOM, tabs, directives, complex and non-string keys), byte-level mutations (bit flip, delete, duplicate, splice, truncate, insert, replace) and random bytes, through ParseSpec, ReadSpec, Cache.Refresh+GetErrors, schema ValidateData/ValidateReader/Validate, and InjectDevices of every loadable mutated Spec into G-OCI specs; G-STR strings through cdi.ParseAnnotations/AnnotationKey/AnnotationValue/UpdateAnnotations and parser.*; plus a child process with an auto-refresh cache into whose directory hostile files are dropped: after each, a known-good file must get listed (the watcher goroutine lives); oracle: no panic, no fatal error/exit of the child, no call above 20 s CPU; distinct_nontrivial = distinct inputs (by hash) that got past the parser (reached validation or loaded)"
 	c.Assume("inputs <= 256 KiB", "only recoverable panics and process death are observable", "per-call CPU time is measured with RUSAGE_THREAD on a locked OS thread")
 	dir := filepath.Join(c.Scratch, "c08")
 	must(os.MkdirAll(dir, 0o755))
@@ -295,7 +295,23 @@ func checkC08(c *Ctx) {
 				continue
 			}
 			path := filepath.Join(sub, "h."+ext)
-			must(os.WriteFile(path, data, 0o644))
+			os.Remove(path)
+			entry := "file"
+			switch r.Intn(60) {
+			case 0: // a Spec name that is a dangling symbolic link
+				entry = "dangling-link"
+				must(os.Symlink(filepath.Join(sub, "no-such-target"), path))
+			case 1: // a Spec name that is a symbolic link to the hostile content
+				entry = "link"
+				must(os.WriteFile(filepath.Join(sub, "target"), data, 0o644))
+				must(os.Symlink(filepath.Join(sub, "target"), path))
+			default:
+				must(os.WriteFile(path, data, 0o644))
+			}
+			if entry != "file" {
+				how += " [" + entry + "]"
+				c.Count("entries:"+entry, 1)
+			}
 			var loaded *cdi.Spec
 			var rerr error
 			if !call("cdi.ReadSpec", func() { loaded, rerr = cdi.ReadSpec(path, 0) }) {
@@ -436,8 +452,19 @@ func checkC08(c *Ctx) {
 			}
 			name := fmt.Sprintf("h%d.%s", i, pickStr(r, "json", "yaml"))
 			// on disk first, then moved into the watched directory
-			must(os.WriteFile(filepath.Join(stage, name), data, 0o644))
-			must(os.Rename(filepath.Join(stage, name), filepath.Join(wdir, name)))
+			switch r.Intn(12) {
+			case 0:
+				how += " [dangling-link]"
+				must(os.Symlink(filepath.Join(stage, "no-such-target"), filepath.Join(wdir, name)))
+			case 1:
+				how += " [vanishes at once]"
+				must(os.WriteFile(filepath.Join(stage, name), data, 0o644))
+				must(os.Rename(filepath.Join(stage, name), filepath.Join(wdir, name)))
+				os.Remove(filepath.Join(wdir, name))
+			default:
+				must(os.WriteFile(filepath.Join(stage, name), data, 0o644))
+				must(os.Rename(filepath.Join(stage, name), filepath.Join(wdir, name)))
+			}
 			m, ok := sync()
 			if !ok {
 				died("died or hangs", data, how)
